@@ -70,6 +70,14 @@ def collect(only):
         for m in json.load(open(mpath))['mutants']:
             items.append(dict(id=f"mutant/{m['id']}", kind='replace', file=m['file'], old=m['old'], new=m['new'],
                               checks=m['checks'], only=m.get('only')))
+    # every repaired defect, re-introduced by reverse-applying its fix commit
+    kf = os.path.join(ROOT, 'known_findings.json')
+    if os.path.exists(kf):
+        import re
+        for line in json.load(open(kf)).get('fixed', []):
+            m = re.match(r'fixed: property=(C\d+) ([0-9a-f]{7,}) ', line)
+            if m:
+                items.append(dict(id=f'revert/{m.group(2)}', kind='revert', commit=m.group(2), checks=[m.group(1)]))
     if only:
         items = [i for i in items if only in i['id']]
     return items
@@ -80,6 +88,11 @@ def apply(item, wt):
         p = sh(['git', '-C', wt, 'apply', item['patch']])
         if p.returncode:
             raise RuntimeError(f"patch does not apply: {p.stderr[:300]}")
+    elif item['kind'] == 'revert':
+        d = sh(['git', '-C', wt, 'show', item['commit']])
+        p = subprocess.run(['git', '-C', wt, 'apply', '-R'], input=d.stdout, capture_output=True, text=True)
+        if p.returncode:
+            raise RuntimeError(f"fix commit does not reverse-apply: {p.stderr[:300]}")
     else:
         path = os.path.join(wt, item['file'])
         s = open(path).read()
